@@ -39,7 +39,7 @@ def writer_signatures(tier, seed):
                                                            'atomman/dump/atom_data/velocities_prop_info.py', 'atomman/load/atom_data/velocities_prop_info.py'],
        functions=['dump.atom_data.atoms_prop_info', 'load.atom_data.atoms_prop_info', 'dump.atom_data.velocities_prop_info', 'load.atom_data.velocities_prop_info'],
        clause='for every atom_style and unit style the column table of the data-file writer equals the one of the reader, starts with id and type (after the style\'s own leading columns) and '
-              'contains the three position columns in length units; exhaustive over 18 styles x 7 unit styles')
+              'contains the three position columns in length units; exhaustive over 18 styles x 7 unit styles; hybrid styles are the union of their sub-style tables in the same unit style')
 def tables_agree(tier, seed):
     from pyvc.native import atomman
     am = atomman()
@@ -87,6 +87,30 @@ def tables_agree(tier, seed):
             except Exception as e:
                 bad.append('%s: raised %s: %s' % (u, type(e).__name__, e))
         rec('tables.atom_style[%s].writer_equals_reader' % st, not bad, '; '.join(bad[:3]) or 'tables agree for all 7 unit styles')
+    # hybrid styles: the table is the union (by property, first occurrence) of the 'atomic' table and the sub-styles' tables IN THE SAME UNIT STYLE
+    for hy in ('hybrid charge', 'hybrid sphere dipole', 'hybrid bond charge', 'hybrid electron'):
+        bad = []
+        for u in UNITS:
+            for fn_w, fn_r, what in ((d_a, l_a, 'atoms'), (d_v, l_v, 'velocities')):
+                try:
+                    want, seen_ = [], set()
+                    try:
+                        for sub in ['atomic'] + hy.split()[1:]:
+                            for p_ in fn_w(sub, u):
+                                if p_['prop_name'] not in seen_:
+                                    seen_.add(p_['prop_name'])
+                                    want.append(p_)
+                    except KeyError:
+                        continue            # the unit style lacks a unit one sub-style needs: refusal of that sub-style
+                    got_w, got_r = fn_w(hy, u), fn_r(hy, u)
+                    if got_w != want:
+                        diff = [(a_.get('prop_name'), a_.get('unit'), b_.get('unit')) for a_, b_ in zip(got_w, want) if a_ != b_][:2]
+                        bad.append('%s, %s table: entries differ from the sub-style tables in that unit style (property, unit used, unit of the style): %r' % (u, what, diff))
+                    if got_r != got_w:
+                        bad.append('%s, %s table: writer and reader tables differ' % (u, what))
+                except Exception as e:
+                    bad.append('%s: raised %s: %s' % (u, type(e).__name__, e))
+        rec('tables.atom_style[%s].union_of_substyles_in_the_same_units' % hy, not bad, '; '.join(bad[:3]) or 'hybrid table is the union of its sub-style tables for all 7 unit styles')
     files = sha_files(['atomman/dump/atom_data/atoms_prop_info.py', 'atomman/load/atom_data/atoms_prop_info.py', 'atomman/dump/atom_data/velocities_prop_info.py',
                        'atomman/load/atom_data/velocities_prop_info.py'])
     return {'obligations': obs, 'files': files}
